@@ -215,20 +215,23 @@ Definition new_model (x : nat) (s : state) (name : option string) : state * out 
        | (None, o) => (s1, o)
        end).
 
-(** Model.close -> System.close_model.  IDEAL: a stale handle is refused. *)
+(** Model.close -> System.close_model.  Closing a model that is no longer
+    registered (already closed; another model may have taken its name) is a
+    no-op (repaired in /repo, ddd7fb8; the pinned tree deleted the OTHER model:
+    finding stale_handle). *)
 Definition close_model (s : state) (h : mid) : state * out :=
   match nlookup h (names s) with
   | None => (s, Raised EBadHandle)
   | Some k =>
       match lookup k (reg s) with
-      | None => (s, Raised EMissing)                       (* del self.models[model.name] : KeyError *)
+      | None => (s, Done)
       | Some m =>
           if Nat.eqb m h then
             (set_cur (match cur s with
                       | Some c => if Nat.eqb c h then None else Some c
                       | None => None end)
                (set_reg (remove_key k (reg s)) s), Done)
-          else (s, Raised EMissing)   (* ideal; pinned tree: deletes the OTHER model [m] (finding stale_handle) *)
+          else (s, Done)
       end
   end.
 
